@@ -347,39 +347,52 @@ def run(repo, chk):
         chk.expect(good and cnt > 0, 'C16.E5', f'gen_stmts[{arm}]', 'exit arm must end in a goto and report exited=True', GEN)
 
     # ---------------- E6: cleanup skipping condition ---------------------------
-    gb = gf.methods['gen_block']
-    conds = []
-    for n_ in ast.walk(gb):
-        if isinstance(n_, ast.If):
-            body_txt = ' '.join(src(s) for s in n_.body)
-            else_txt = ' '.join(src(s) for s in n_.orelse)
-            if 'list(self.pop(' in body_txt and 'yield from self.pop(' in else_txt:
-                conds.append((n_.test, False))
-            elif 'yield from self.pop(' in body_txt and 'list(self.pop(' in else_txt:
-                conds.append((n_.test, True))
-    if len(conds) != 1:
-        chk.fail('C16.E6', 'gen_block cleanup condition', f'expected one if/else choosing between silent and emitted pop, found {len(conds)}', GEN)
-    else:
-        test, emits_when_true = conds[0]
-        gns = {'ExitMode': EM}
-        bad = None
+    # decided on the emission paths of the CodeBlock arm, however the choice is spelled: a path EMITS the cleanup when the
+    # pop generator is spliced into the output (`yield from self.pop(..)`), it runs it silently when the generator is only
+    # drained.  Every decision of the path that can be evaluated for (exited, exit modes) is; the path must emit iff the
+    # block can complete normally and did not exit.
+    from .. import efg as _efg
+    gns = {'ExitMode': EM}
+    cb_paths = [(p, ev) for p, ev in gf.inlined('gen_block')
+                if any(e.kind == 'case' and 'CodeBlock' in e.text and not e.origin for e in ev) and p.outcome != 'raise']
+    bad = None
+    n_dec = 0
+    for p, ev in cb_paths:
+        pops = [e for e in ev if e.kind in ('sub', 'silent') and e.func in ('self.pop', 'self.pop_dynamic', 'self.discard')
+                or (e.kind in ('sub', 'silent') and e.func.startswith('self.pop'))]
+        if not pops:
+            continue
+        emits = any(e.kind == 'sub' for e in pops)
         for exited in (True, False):
             for M in D.all_modes:
                 blk = D.stub(M)
-                try:
-                    v = bool(D.it.eval(test, Env(gns, {'exited': exited, 'block': blk, 'ExitMode': EM})))
-                except Exception as e:   # noqa
-                    raise AnalysisError(f'cannot evaluate cleanup condition `{src(test)}`: {e}')
-                emit = v if emits_when_true else not v
+                feasible = True
+                for idx, e in enumerate(ev):
+                    if e.kind != 'cond' or e.node is None:
+                        continue
+                    try:
+                        node = ast.parse(_efg.expand(ev, idx, e.node, keep=('exited', 'block')), mode='eval').body
+                    except SyntaxError:
+                        continue
+                    names = {n_.id for n_ in ast.walk(node) if isinstance(n_, ast.Name)}
+                    if not names or not names <= {'exited', 'block', 'ExitMode'}:
+                        continue
+                    try:
+                        v = bool(D.it.eval(node, Env(gns, {'exited': exited, 'block': blk, 'ExitMode': EM})))
+                    except Exception:      # noqa: BLE001
+                        continue
+                    if v != e.truth:
+                        feasible = False
+                        break
+                if not feasible:
+                    continue
+                n_dec += 1
                 want_emit = (not exited) and ('NONE' in nm(M))
-                if emit != want_emit:
-                    bad = (exited, sorted(nm(M)), emit)
-                    break
-            if bad:
-                break
-        chk.expect(bad is None, 'C16.E6', 'gen_block cleanup condition',
-                   f'`{src(test)}`: with exited={bad[0] if bad else ""} modes={bad[1] if bad else ""} cleanup emitted={bad[2] if bad else ""}; '
-                   'cleanup code must be emitted iff the block can complete normally and did not exit', GEN, test.lineno)
+                if emits != want_emit and bad is None:
+                    bad = (exited, sorted(nm(M)), emits)
+    chk.expect(bad is None and n_dec >= 64, 'C16.E6', 'gen_block cleanup condition',
+               (f'with exited={bad[0]} modes={bad[1]} cleanup emitted={bad[2]}; ' if bad else f'{n_dec} (path, exited, modes) combinations; ') +
+               'cleanup code must be emitted iff the block can complete normally and did not exit', GEN)
     # terminal calls are terminal in the emitted code too: a defeat site is `[Jump(defeat)] Halt` (shared with C03.J1/J2)
     if chk.__class__.__name__ == 'Check':
         from . import c03
@@ -395,7 +408,7 @@ def run(repo, chk):
         c08.run(repo, Remap(chk, {'C08.L2': loop_shape}))
         # break / continue leave the innermost loop: the loop record they read is the one pushed last (shared with C02.T4)
         from . import c02
-        c02.run(repo, Remap(chk, {'C02.T4': lambda c: 'C16.E7' if 'LoopInfo' in c else None}))
+        c02.run(repo, Remap(chk, {'C02.T4': lambda c: 'C16.E7' if ('LoopInfo' in c or 'BreakStatement' in c or 'ContinueStatement' in c) else None}))
     chk.exhaustive = True
     chk.sample({'loop_table': {c: sorted(nm(D.LoopBlock(None, D.stub(D.mk(['NONE', 'BREAK'])), cond,
                                D.CodeBlock((), None, False, EM.NONE)).exit_modes()))
